@@ -55,6 +55,7 @@ func NewClient() *Client {
 		Auth:                Auth{Name: "Steve"},
 		Registries:          registry.NewNetworkCodec(),
 		Events:              Events{handlers: make([][]PacketHandler, packetid.ClientboundPacketIDGuard)},
+		Cookies:             make(map[string][]byte),
 		LoginPlugin:         make(map[string]CustomPayloadHandler),
 		ConfigHandler:       NewDefaultConfigHandler(),
 		CustomReportDetails: make(map[string]string),
